@@ -303,10 +303,15 @@ class Interp:
         for c in self.clauses:
             c.before_op(op, prepared)
         if "inject" in op:
-            inj = Injector(op["inject"]["ordinal"], op["inject"].get("exc", "KeyboardInterrupt"))
+            inj = Injector(op["inject"]["ordinal"], op["inject"].get("exc", "KeyboardInterrupt"),
+                           opcodes=op["inject"].get("granularity") == "opcode")
             self.count("fault_configured:F2")
         exc = None
         self._inj = inj
+        if inj is not None and inj.opcodes:
+            # CPython 3.12 instruments for per-instruction events only at a sys.settrace()
+            # call made after some frame has asked for them
+            sys._getframe().f_trace_opcodes = True
         try:
             sys.settrace(self._gtrace)
             try:
